@@ -465,9 +465,12 @@ Proof.
 Qed.
 
 (* results up to the scope recorded in the operation *)
-Definition res_core (r : res operation) := match r with Val o => Val (op_core o) | Raise e => Raise e end.
-Definition result_core (r : result) :=
-  match r with RIter x => inl x | ROp r => inr (res_core r) end.
+Definition res_proj {T} (proj : operation -> T) (r : res operation) : res T :=
+  match r with Val o => Val (proj o) | Raise e => Raise e end.
+Definition result_proj {T} (proj : operation -> T) (r : result) :=
+  match r with RIter x => inl x | ROp r => inr (res_proj proj r) end.
+Definition res_core := res_proj op_core.
+Definition result_core := result_proj op_core.
 
 Definition post_of (a : access) (r : res operation) : res operation :=
   match a with AGet _ _ => to_lookup_error r | _ => r end.
@@ -480,8 +483,6 @@ Definition planned (a : access) (pl : plan) : res operation :=
 Section Cache.
   Variable v : version.
   Variable doc : json.
-  Variable U : list access.
-  Hypothesis Hcoh : coherent v doc U = true.
 
   Definition fresh_op (a : access) : res operation :=
     match fresh v doc a with ROp r => r | RIter _ => Raise EOther end.
@@ -530,10 +531,14 @@ Section Cache2.
   Variable v : version.
   Variable doc : json.
   Variable U : list access.
-  Hypothesis Hcoh : coherent v doc U = true.
+  Variable T : Type.
+  Variable proj : operation -> T.
+  Variable eqb : operation -> operation -> bool.
+  Hypothesis eqb_sound : forall a b, eqb a b = true -> proj a = proj b.
+  Hypothesis Hcoh : coherent_gen eqb v doc U = true.
 
   Notation fresh_op := (fresh_op v doc).
-  Definition good (a : access) (o : operation) : Prop := exists o', fresh_op a = Val o' /\ op_core o' = op_core o.
+  Definition good (a : access) (o : operation) : Prop := exists o', fresh_op a = Val o' /\ proj o' = proj o.
 
   Record Inv (c : cache) : Prop := {
     inv_maps : forall p m, kget str_eqb p (c_maps c) = Some m -> fresh_map doc p = Val m;
@@ -547,18 +552,18 @@ Section Cache2.
 
   Lemma coh_self a : In a U -> self_ok v doc a = true.
   Proof.
-    intros H. unfold coherent in Hcoh. apply andb_true_iff in Hcoh. destruct Hcoh as [H1 _].
+    intros H. unfold coherent_gen in Hcoh. apply andb_true_iff in Hcoh. destruct Hcoh as [H1 _].
     apply andb_true_iff in H1. destruct H1 as [H1 _]. rewrite forallb_forall in H1. apply H1; exact H.
   Qed.
-  Lemma coh_pair a b : In a U -> In b U -> pair_ok v doc a b = true.
+  Lemma coh_pair a b : In a U -> In b U -> pair_ok_gen eqb v doc a b = true.
   Proof.
-    intros Ha Hb. unfold coherent in Hcoh. apply andb_true_iff in Hcoh. destruct Hcoh as [H1 _].
+    intros Ha Hb. unfold coherent_gen in Hcoh. apply andb_true_iff in Hcoh. destruct Hcoh as [H1 _].
     apply andb_true_iff in H1. destruct H1 as [_ H1]. rewrite forallb_forall in H1. specialize (H1 a Ha).
     rewrite forallb_forall in H1. apply H1; exact Hb.
   Qed.
   Lemma coh_pop i : In (AById i) U -> exists defs, populate doc [] = (defs, None).
   Proof.
-    intros H. unfold coherent in Hcoh. apply andb_true_iff in Hcoh. destruct Hcoh as [_ H1].
+    intros H. unfold coherent_gen in Hcoh. apply andb_true_iff in Hcoh. destruct Hcoh as [_ H1].
     apply orb_true_iff in H1. destruct H1 as [H1|H1].
     - apply negb_true_iff in H1. assert (E : existsb is_by_id U = true) by (apply existsb_exists; exists (AById i); split; [exact H | reflexivity]).
       congruence.
@@ -581,28 +586,28 @@ Section Cache2.
     Inv c -> In a U -> pgo v doc a = Some (tk, b, idf, rf) ->
     (forall r, rf = Some r -> a = AByRef r) ->
     finish c tk b idf rf = (x, c') ->
-    res_core (post_of a x) = res_core (fresh_op a) /\ Inv c'.
+    res_proj proj (post_of a x) = res_proj proj (fresh_op a) /\ Inv c'.
   Proof.
     intros I Ha Hp Hrf Hf. unfold finish in Hf.
     destruct (by_tk c tk) as [o|] eqn:Etk.
     - inversion Hf; subst x c'. split; [|exact I].
       destruct (inv_tk c I a tk b idf rf o Ha Hp Etk) as [o' [Hfo Hc]]. rewrite Hfo.
-      replace (post_of a (Val o)) with (Val o : res operation) by (destruct a; reflexivity). cbn [res_core]. rewrite Hc. reflexivity.
+      replace (post_of a (Val o)) with (Val o : res operation) by (destruct a; reflexivity). cbn [res_proj]. rewrite Hc. reflexivity.
     - destruct b as [o|e].
       2:{ inversion Hf; subst x c'. split; [|exact I]. rewrite (fresh_planned v doc a _ Hp). reflexivity. }
       pose proof (coh_self a Ha) as S. unfold self_ok in S. rewrite Hp in S.
       pose proof (good_of_plan a tk o idf rf Ha Hp) as Hfresh.
       assert (Hgood_tk : forall a' tk' b' idf' rf', In a' U -> pgo v doc a' = Some (tk', b', idf', rf') -> tkey_eqb tk' tk = true -> good a' o).
-      { intros a' tk' b' idf' rf' Ha' Hp' Ek. pose proof (coh_pair a a' Ha Ha') as P. unfold pair_ok in P. rewrite Hp, Hp' in P.
+      { intros a' tk' b' idf' rf' Ha' Hp' Ek. pose proof (coh_pair a a' Ha Ha') as P. unfold pair_ok_gen in P. rewrite Hp, Hp' in P.
         apply andb_true_iff in P. destruct P as [P _].
         assert (Ek' : tkey_eqb tk tk' = true) by (apply tkey_eqb_f; apply tkey_eqb_f in Ek; congruence).
         rewrite Ek' in P. cbn [negb orb] in P. destruct b' as [ob|]; [|discriminate].
-        exists ob. split; [eapply good_of_plan; eauto | symmetry; apply op_core_eqb_eq; exact P]. }
+        exists ob. split; [eapply good_of_plan; eauto | symmetry; apply eqb_sound; exact P]. }
       assert (Hgood_id : forall i j, idf o = Some i -> In (AById j) U -> py_eq (JStr j) i = true -> good (AById j) o).
-      { intros i j Hi Hj Ej. pose proof (coh_pair a (AById j) Ha Hj) as P. unfold pair_ok in P. rewrite Hp in P. rewrite Hi in P.
+      { intros i j Hi Hj Ej. pose proof (coh_pair a (AById j) Ha Hj) as P. unfold pair_ok_gen in P. rewrite Hp in P. rewrite Hi in P.
         destruct (pgo v doc (AById j)) as [[[[tkb bb] idfb] rfb]|] eqn:Hpb.
         - apply andb_true_iff in P. destruct P as [_ P]. rewrite Ej in P. cbn [negb orb] in P.
-          destruct bb as [ob|]; [|discriminate]. exists ob. split; [eapply good_of_plan; eauto | symmetry; apply op_core_eqb_eq; exact P].
+          destruct bb as [ob|]; [|discriminate]. exists ob. split; [eapply good_of_plan; eauto | symmetry; apply eqb_sound; exact P].
         - rewrite Ej in P. discriminate. }
       unfold insert_operation in Hf.
       set (idx := List.length (c_ops c)) in *.
@@ -675,9 +680,13 @@ Section Cache3.
   Variable v : version.
   Variable doc : json.
   Variable U : list access.
-  Hypothesis Hcoh : coherent v doc U = true.
+  Variable T : Type.
+  Variable proj : operation -> T.
+  Variable eqb : operation -> operation -> bool.
+  Hypothesis eqb_sound : forall a b, eqb a b = true -> proj a = proj b.
+  Hypothesis Hcoh : coherent_gen eqb v doc U = true.
   Notation fresh_op := (fresh_op v doc).
-  Notation Inv := (Inv v doc U).
+  Notation Inv := (Inv v doc U T proj).
 
   Lemma Inv_empty : Inv empty_cache.
   Proof.
@@ -700,10 +709,10 @@ Section Cache3.
 
   Lemma step_get c p m x c' :
     Inv c -> In (AGet p m) U -> access_get v doc c p m = (x, c') ->
-    res_core x = res_core (fresh_op (AGet p m)) /\ Inv c'.
+    res_proj proj x = res_proj proj (fresh_op (AGet p m)) /\ Inv c'.
   Proof.
     intros I Ha H. unfold access_get, get_map in H.
-    assert (Hfm : forall mm, kget str_eqb p (c_maps c) = Some mm -> fresh_map doc p = Val mm) by (apply (inv_maps _ _ _ c I)).
+    assert (Hfm : forall mm, kget str_eqb p (c_maps c) = Some mm -> fresh_map doc p = Val mm) by (apply (inv_maps _ _ _ _ _ c I)).
     (* the fresh lookup, unfolded once *)
     assert (Hfresh : fresh_op (AGet p m) =
               match fresh_map doc p with
@@ -728,14 +737,14 @@ Section Cache3.
                | Some opj =>
                    let '(r, c2) := finish c1 (scope, p, lower_ascii m) (build_by_path v doc p (lower_ascii m) scope kvs opj) id_of_resolved None in
                    (to_lookup_error r, c2)
-               end) = (x, c') -> res_core x = res_core (fresh_op (AGet p m)) /\ Inv c').
+               end) = (x, c') -> res_proj proj x = res_proj proj (fresh_op (AGet p m)) /\ Inv c').
     { intros scope item c1 I1 Hm. cbn zeta. rewrite Hfresh, Hm.
       destruct (ci_get (lower_ascii m) match item with JObj kvs => kvs | _ => [] end) as [opj|] eqn:Eci.
       - destruct (finish c1 _ _ id_of_resolved None) as [r c2] eqn:Ef. intros E; inversion E; subst x c'.
         assert (Hp : pgo v doc (AGet p m) = Some ((scope, p, lower_ascii m),
                        build_by_path v doc p (lower_ascii m) scope match item with JObj kvs => kvs | _ => [] end opj, id_of_resolved, None)).
         { cbn [pgo]. rewrite Hm, Eci. reflexivity. }
-        destruct (finish_step v doc U Hcoh c1 (AGet p m) _ _ _ _ r c2 I1 Ha Hp (fun r0 E0 => ltac:(discriminate)) Ef) as [R I2].
+        destruct (finish_step v doc U T proj eqb eqb_sound Hcoh c1 (AGet p m) _ _ _ _ r c2 I1 Ha Hp (fun r0 E0 => ltac:(discriminate)) Ef) as [R I2].
         split; [|exact I2]. rewrite Hp. rewrite <- (fresh_planned v doc _ _ Hp). exact R.
       - intros E; inversion E; subst x c'. split; [reflexivity | exact I1]. }
     destruct (kget str_eqb p (c_maps c)) as [[scope item]|] eqn:Ek.
@@ -750,19 +759,23 @@ Section Cache4.
   Variable v : version.
   Variable doc : json.
   Variable U : list access.
-  Hypothesis Hcoh : coherent v doc U = true.
+  Variable T : Type.
+  Variable proj : operation -> T.
+  Variable eqb : operation -> operation -> bool.
+  Hypothesis eqb_sound : forall a b, eqb a b = true -> proj a = proj b.
+  Hypothesis Hcoh : coherent_gen eqb v doc U = true.
   Notation fresh_op := (fresh_op v doc).
-  Notation Inv := (Inv v doc U).
+  Notation Inv := (Inv v doc U T proj).
 
   Lemma step_id c i x c' :
     Inv c -> In (AById i) U -> access_id v doc c i = (x, c') ->
-    res_core x = res_core (fresh_op (AById i)) /\ Inv c'.
+    res_proj proj x = res_proj proj (fresh_op (AById i)) /\ Inv c'.
   Proof.
     intros I Ha H. unfold access_id in H.
     destruct (by_id c (JStr i)) as [o|] eqn:Eid.
     - inversion H; subst x c'. split; [|exact I].
-      destruct (inv_id _ _ _ c I i o Ha Eid) as [o' [Hf Hc]]. rewrite Hf. cbn [res_core]. rewrite Hc. reflexivity.
-    - destruct (coh_pop v doc U Hcoh i Ha) as [defs Hpop].
+      destruct (inv_id _ _ _ _ _ c I i o Ha Eid) as [o' [Hf Hc]]. rewrite Hf. cbn [res_proj]. rewrite Hc. reflexivity.
+    - destruct (coh_pop v doc U eqb Hcoh i Ha) as [defs Hpop].
       assert (Hfresh : fresh_op (AById i) =
                 match kget py_eq (JStr i) defs with
                 | None => Raise (missing_id_error defs)
@@ -781,7 +794,7 @@ Section Cache4.
       { destruct (c_defs c) as [|d0 dr] eqn:Ed; cbn [is_nil].
         - rewrite Hpop. exists (with_defs c defs). split; [apply Inv_with_defs; assumption|]. split; reflexivity.
         - exists c. split; [exact I|]. split; [|reflexivity].
-          destruct (inv_defs _ _ _ c I) as [E|E]; [congruence|]. rewrite Hpop in E. inversion E. congruence. }
+          destruct (inv_defs _ _ _ _ _ c I) as [E|E]; [congruence|]. rewrite Hpop in E. inversion E. congruence. }
       destruct Hc1 as [c1 [I1 [Hd1 Hc1]]].
       match type of H with (let '(_, _) := ?e in _) = _ =>
         match type of Hc1 with (let '(_, _) := ?e' in _) = _ => change e with e' in H end end.
@@ -790,19 +803,19 @@ Section Cache4.
       destruct (kget py_eq (JStr i) defs) as [en|] eqn:Ek.
       + assert (Hp : pgo v doc (AById i) = Some ((e_scope en, e_path en, e_method en), build_by_id v doc en, (fun _ => Some (JStr i)), None)).
         { cbn [pgo]. rewrite Hpop, Ek. reflexivity. }
-        destruct (finish_step v doc U Hcoh c1 (AById i) _ _ _ _ x c' I1 Ha Hp (fun r0 E0 => ltac:(discriminate)) H) as [R I2].
+        destruct (finish_step v doc U T proj eqb eqb_sound Hcoh c1 (AById i) _ _ _ _ x c' I1 Ha Hp (fun r0 E0 => ltac:(discriminate)) H) as [R I2].
         split; [|exact I2]. rewrite Hp. rewrite <- (fresh_planned v doc _ _ Hp). exact R.
       + inversion H; subst x c'. split; [reflexivity | exact I1].
   Qed.
 
   Lemma step_ref c r x c' :
     Inv c -> In (AByRef r) U -> access_ref v doc c r = (x, c') ->
-    res_core x = res_core (fresh_op (AByRef r)) /\ Inv c'.
+    res_proj proj x = res_proj proj (fresh_op (AByRef r)) /\ Inv c'.
   Proof.
     intros I Ha H. unfold access_ref in H.
     destruct (by_ref c r) as [o|] eqn:Er.
     - inversion H; subst x c'. split; [|exact I].
-      destruct (inv_ref _ _ _ c I r o Ha Er) as [o' [Hf Hc]]. rewrite Hf. cbn [res_core]. rewrite Hc. reflexivity.
+      destruct (inv_ref _ _ _ _ _ c I r o Ha Er) as [o' [Hf Hc]]. rewrite Hf. cbn [res_proj]. rewrite Hc. reflexivity.
     - assert (Hfresh : fresh_op (AByRef r) =
                 match resolve doc r with
                 | Raise e => Raise e
@@ -826,12 +839,12 @@ Section Cache4.
       2:{ inversion H; subst x c'. split; [reflexivity | exact I]. }
       assert (Hp : pgo v doc (AByRef r) = Some (([], unescape p, m), build_by_ref v doc r url (unescape p) m opj, (fun _ => None), Some r)).
       { cbn [pgo]. rewrite Eres, El. reflexivity. }
-      destruct (finish_step v doc U Hcoh c (AByRef r) _ _ _ _ x c' I Ha Hp (fun r0 E0 => ltac:(inversion E0; reflexivity)) H) as [R I2].
+      destruct (finish_step v doc U T proj eqb eqb_sound Hcoh c (AByRef r) _ _ _ _ x c' I Ha Hp (fun r0 E0 => ltac:(inversion E0; reflexivity)) H) as [R I2].
       split; [|exact I2]. rewrite Hp. rewrite <- (fresh_planned v doc _ _ Hp). exact R.
   Qed.
 
   Lemma run_refines accs : forall c, Inv c -> incl accs U ->
-    map result_core (run v doc c accs) = map (fun a => result_core (fresh v doc a)) accs.
+    map (result_proj proj) (run v doc c accs) = map (fun a => result_proj proj (fresh v doc a)) accs.
   Proof.
     induction accs as [|a r IH]; intros c I Hin; [reflexivity|].
     assert (Ha : In a U) by (apply Hin; left; reflexivity).
@@ -840,16 +853,16 @@ Section Cache4.
     destruct a as [|p m|i|rf]; cbn [step] in Es.
     - inversion Es; subst x c'. cbn [map]. rewrite (IH c I Hr). reflexivity.
     - destruct (access_get v doc c p m) as [y c2] eqn:E. inversion Es; subst x c'.
-      destruct (step_get v doc U Hcoh c p m y c2 I Ha E) as [R I2]. cbn [map]. rewrite (IH c2 I2 Hr). f_equal.
-      cbn [result_core]. rewrite R. unfold fresh_op. destruct (fresh v doc (AGet p m)) eqn:Ef; [|reflexivity].
+      destruct (step_get v doc U T proj eqb eqb_sound Hcoh c p m y c2 I Ha E) as [R I2]. cbn [map]. rewrite (IH c2 I2 Hr). f_equal.
+      cbn [result_proj]. rewrite R. unfold fresh_op. destruct (fresh v doc (AGet p m)) eqn:Ef; [|reflexivity].
       unfold fresh in Ef. cbn [step] in Ef. destruct (access_get v doc empty_cache p m); discriminate.
     - destruct (access_id v doc c i) as [y c2] eqn:E. inversion Es; subst x c'.
       destruct (step_id c i y c2 I Ha E) as [R I2]. cbn [map]. rewrite (IH c2 I2 Hr). f_equal.
-      cbn [result_core]. rewrite R. unfold fresh_op. destruct (fresh v doc (AById i)) eqn:Ef; [|reflexivity].
+      cbn [result_proj]. rewrite R. unfold fresh_op. destruct (fresh v doc (AById i)) eqn:Ef; [|reflexivity].
       unfold fresh in Ef. cbn [step] in Ef. destruct (access_id v doc empty_cache i); discriminate.
     - destruct (access_ref v doc c rf) as [y c2] eqn:E. inversion Es; subst x c'.
       destruct (step_ref c rf y c2 I Ha E) as [R I2]. cbn [map]. rewrite (IH c2 I2 Hr). f_equal.
-      cbn [result_core]. rewrite R. unfold fresh_op. destruct (fresh v doc (AByRef rf)) eqn:Ef; [|reflexivity].
+      cbn [result_proj]. rewrite R. unfold fresh_op. destruct (fresh v doc (AByRef rf)) eqn:Ef; [|reflexivity].
       unfold fresh in Ef. cbn [step] in Ef. destruct (access_ref v doc empty_cache rf); discriminate.
   Qed.
 End Cache4.
@@ -858,31 +871,146 @@ Lemma cache_refines_fresh v doc accs :
   coherent v doc accs = true ->
   map result_core (run v doc empty_cache accs) = map (fun a => result_core (fresh v doc a)) accs.
 Proof.
-  intros H. apply (run_refines v doc accs H accs empty_cache); [apply Inv_empty | apply incl_refl].
+  intros H. apply (run_refines v doc accs _ op_core op_core_eqb op_core_eqb_eq H accs empty_cache); [apply Inv_empty | apply incl_refl].
 Qed.
 
-Lemma view_of_core conv v o1 o2 : op_core o1 = op_core o2 -> view conv v o1 = view conv v o2.
+Lemma op_full_eqb_eq a b : op_full_eqb a b = true -> a = b.
 Proof.
-  unfold op_core, view. intros H. inversion H as [[H1 H2 H3 H4 H5 H6 H7 H8 H9]].
-  rewrite H1, H2, H3, H5, H6, H7, H8, H9. reflexivity.
+  unfold op_full_eqb. intros H. apply andb_true_iff in H. destruct H as [H1 H2].
+  apply op_core_eqb_eq in H1. apply str_eqb_spec in H2. unfold op_core in H1.
+  destruct a, b. cbn in *. inversion H1. subst. reflexivity.
 Qed.
 
-Lemma result_view_of_core conv v r1 r2 : result_core r1 = result_core r2 -> result_view_of conv v r1 = result_view_of conv v r2.
+Lemma result_proj_id_inj r1 r2 : result_proj (fun o => o) r1 = result_proj (fun o => o) r2 -> r1 = r2.
 Proof.
-  destruct r1 as [x1|[o1|e1]], r2 as [x2|[o2|e2]]; cbn [result_core res_core]; intros H; try discriminate.
-  - assert (x1 = x2) by congruence. subst. reflexivity.
-  - assert (E : op_core o1 = op_core o2) by congruence. cbn [result_view_of]. rewrite (view_of_core conv v _ _ E). reflexivity.
-  - assert (e1 = e2) by congruence. subst. reflexivity.
+  destruct r1 as [x1|[o1|e1]], r2 as [x2|[o2|e2]]; cbn [result_proj res_proj]; intros H; try discriminate; congruence.
+Qed.
+
+(* with the scope: the operations themselves are equal *)
+Lemma cache_refines_fresh_strict v doc accs :
+  coherent_strict v doc accs = true ->
+  run v doc empty_cache accs = map (fresh v doc) accs.
+Proof.
+  intros H.
+  pose proof (run_refines v doc accs _ (fun o => o) op_full_eqb op_full_eqb_eq H accs empty_cache (Inv_empty _ _ _ _ _) (incl_refl _)) as E.
+  remember (run v doc empty_cache accs) as rs eqn:Er. clear Er H.
+  revert rs E. induction accs as [|a r IH]; intros [|x rs] E; cbn [map] in *; try discriminate; [reflexivity|].
+  inversion E as [[E1 E2]]. f_equal; [apply result_proj_id_inj; exact E1 | apply IH; exact E2].
 Qed.
 
 Lemma cache_refines_fresh_views conv v doc accs :
-  coherent v doc accs = true ->
+  coherent_strict v doc accs = true ->
   map (result_view_of conv v) (run v doc empty_cache accs) = map (fun a => result_view_of conv v (fresh v doc a)) accs.
+Proof. intros H. rewrite (cache_refines_fresh_strict v doc accs H), map_map. reflexivity. Qed.
+
+(* the scope recorded by a lookup by path and method or by operationId is the scope component of
+   its traversal key; a lookup by reference records the URL of the reference under the root scope *)
+Lemma build_op_scope v doc path method shared entry resolved scope o :
+  build_op v doc path method shared entry resolved scope = Val o -> o_scope o = scope /\ o_path o = path /\ o_method o = method.
 Proof.
-  intros H. pose proof (cache_refines_fresh v doc accs H) as E.
-  remember (run v doc empty_cache accs) as rs eqn:Er. clear Er H.
-  revert rs E. induction accs as [|a r IH]; intros [|x rs] E; cbn [map] in *; try discriminate; [reflexivity|].
-  inversion E as [[E1 E2]]. f_equal; [apply result_view_of_core; exact E1 | apply IH; exact E2].
+  unfold build_op. intros H.
+  destruct (py_get_d resolved k_parameters (JArr [])); cbn [bind] in H; [|discriminate].
+  destruct (collect v doc a shared resolved); cbn [bind] in H; [|discriminate].
+  apply make_operation_ident in H. unfold ident in H. inversion H. auto.
+Qed.
+
+Lemma lookup_scope_is_key v doc a tk idf rf o :
+  pgo v doc a = Some (tk, Val o, idf, rf) ->
+  match a with
+  | AByRef r => fst (fst tk) = [] /\ exists opj, resolve doc r = Val (o_scope o, opj)
+  | _ => o_scope o = fst (fst tk)
+  end /\ o_path o = snd (fst tk) /\ o_method o = snd tk.
+Proof.
+  destruct a as [|p m|i|r]; cbn [pgo]; [discriminate| | |].
+  - destruct (fresh_map doc p) as [[scope item]|]; [|discriminate].
+    destruct (ci_get _ _) as [opj|]; [|discriminate]. intros H; inversion H as [[Htk Hb Hidf Hrf]]. clear H Hidf Hrf. subst tk.
+    unfold build_by_path in Hb.
+    destruct (resolve_op doc opj); cbn [bind] in Hb; [|discriminate].
+    destruct (resolve_op doc _); cbn [bind] in Hb; [|discriminate].
+    apply build_op_scope in Hb. cbn [fst snd]. tauto.
+  - destruct (populate doc []) as [defs [e|]]; [discriminate|].
+    destruct (kget py_eq (JStr i) defs) as [en|]; [|discriminate]. intros H; inversion H as [[Htk Hb Hidf Hrf]]. clear H Hidf Hrf. subst tk.
+    unfold build_by_id in Hb.
+    destruct (resolve_op doc (e_op en)); cbn [bind] in Hb; [|discriminate].
+    destruct (shared_parameters doc (e_item en)); cbn [bind] in Hb; [|discriminate].
+    apply build_op_scope in Hb. cbn [fst snd]. tauto.
+  - destruct (resolve doc r) as [[url opj]|] eqn:Er; [|discriminate].
+    destruct (last_two (split_on 47 url)) as [[p m]|]; [|discriminate]. intros H; inversion H as [[Htk Hb Hidf Hrf]]. clear H Hidf Hrf. subst tk.
+    unfold build_by_ref in Hb.
+    destruct (resolve_op doc opj); cbn [bind] in Hb; [|discriminate].
+    destruct (before_last_slash r); cbn [bind] in Hb; [|discriminate].
+    destruct (resolve doc s) as [[u pi]|]; cbn [bind] in Hb; [|discriminate].
+    destruct (shared_parameters doc pi); cbn [bind] in Hb; [|discriminate].
+    apply build_op_scope in Hb. cbn [fst snd]. destruct Hb as [Hs [Hp Hm]]. rewrite Hs.
+    split; [split; [reflexivity | exists opj; reflexivity] | split; assumption].
+Qed.
+
+(* the id scan records every operation with the scope of ITS OWN path item: the root scope for an
+   inline path item, the URL of the reference for a path item behind $ref *)
+Definition own_scope (doc : json) (paths : list (str * json)) (en : entry) : Prop :=
+  exists pi, In (e_path en, pi) paths /\ resolve_path_item doc pi = Val (e_scope en, e_item en)
+             /\ exists kvs, py_items (e_item en) = Val kvs /\ In (e_method en, e_op en) kvs.
+
+Lemma kset_in (P : entry -> Prop) id en0 : forall defs,
+  (forall k en, In (k, en) defs -> P en) -> P en0 ->
+  forall k en, In (k, en) (kset py_eq id en0 defs) -> P en.
+Proof.
+  induction defs as [|[k' en'] dr IHd]; intros Hd H0 k en Hin; cbn [kset] in Hin.
+  - destruct Hin as [Hin|[]]. inversion Hin; subst. exact H0.
+  - destruct (py_eq id k').
+    + destruct Hin as [Hin|Hin]; [inversion Hin; subst; exact H0 | eapply Hd; right; exact Hin].
+    + destruct Hin as [Hin|Hin]; [inversion Hin; subst; eapply Hd; left; reflexivity|].
+      eapply IHd; [intros; eapply Hd; right; eassumption | exact H0 | exact Hin].
+Qed.
+
+Lemma populate_entries_own (P : entry -> Prop) path scope item kvs : forall defs defs' x,
+  (forall k en, In (k, en) defs -> P en) ->
+  (forall key e, In (key, e) kvs -> P {| e_path := path; e_method := key; e_scope := scope; e_item := item; e_op := e |}) ->
+  populate_entries path scope item kvs defs = (defs', x) ->
+  forall k en, In (k, en) defs' -> P en.
+Proof.
+  induction kvs as [|[key e] r IH]; intros defs defs' x Hd Hk H; cbn [populate_entries] in H.
+  - inversion H; subst. exact Hd.
+  - assert (Hr : forall key0 e0, In (key0, e0) r -> P {| e_path := path; e_method := key0; e_scope := scope; e_item := item; e_op := e0 |})
+      by (intros; apply Hk; right; assumption).
+    destruct (negb (is_http_method key)); [eapply IH; eauto|].
+    destruct (py_in k_operationId e) as [[|]|]; [| eapply IH; eauto | inversion H; subst; exact Hd].
+    destruct (py_item e k_operationId) as [id|]; [|inversion H; subst; exact Hd].
+    destruct (hashable id); [|inversion H; subst; exact Hd].
+    eapply IH; [| exact Hr | exact H].
+    apply kset_in; [exact Hd | apply Hk; left; reflexivity].
+Qed.
+
+Lemma populate_paths_own doc all paths : forall defs defs' x,
+  (forall z, In z paths -> In z all) ->
+  (forall k en, In (k, en) defs -> own_scope doc all en) ->
+  populate_paths doc paths defs = (defs', x) ->
+  forall k en, In (k, en) defs' -> own_scope doc all en.
+Proof.
+  induction paths as [|[path pi] r IH]; intros defs defs' x Hsub Hd H; cbn [populate_paths] in H.
+  - inversion H; subst. exact Hd.
+  - destruct (py_in k_ref pi) as [has|] eqn:Ehas; cbn [bind] in H; [|inversion H; subst; exact Hd].
+    assert (Hrp : forall scope item, (if has then do x0 <- py_item pi k_ref; resolve_value doc x0 else Val ([], pi)) = Val (scope, item) ->
+                  resolve_path_item doc pi = Val (scope, item)).
+    { intros scope item E. unfold resolve_path_item. rewrite Ehas. cbn [bind]. exact E. }
+    destruct (if has then do x0 <- py_item pi k_ref; resolve_value doc x0 else Val ([], pi)) as [[scope item]|] eqn:Esc;
+      cbn [bind] in H; [|inversion H; subst; exact Hd].
+    destruct (py_items item) as [kvs|] eqn:Ekv; cbn [bind] in H; [|inversion H; subst; exact Hd].
+    assert (Hnew : forall key e0, In (key, e0) kvs ->
+              own_scope doc all {| e_path := path; e_method := key; e_scope := scope; e_item := item; e_op := e0 |}).
+    { intros key e0 Hin. exists pi. cbn. split; [apply Hsub; left; reflexivity|]. split; [apply Hrp; reflexivity|]. exists kvs. split; assumption. }
+    destruct (populate_entries path scope item kvs defs) as [defs1 [e|]] eqn:Epe.
+    + inversion H; subst. eapply (populate_entries_own (own_scope doc all)); [exact Hd | exact Hnew | exact Epe].
+    + eapply IH; [intros; apply Hsub; right; assumption | | exact H].
+      eapply (populate_entries_own (own_scope doc all)); [exact Hd | exact Hnew | exact Epe].
+Qed.
+
+Lemma populate_own doc paths defs x :
+  py_get_d doc k_paths (JObj []) = Val (JObj paths) ->
+  populate doc [] = (defs, x) -> forall k en, In (k, en) defs -> own_scope doc paths en.
+Proof.
+  unfold populate. intros Hp. rewrite Hp. cbn [py_items]. intros H.
+  apply (populate_paths_own doc paths paths [] defs x); [intros z Hz; exact Hz | intros k en Hin; inversion Hin | exact H].
 Qed.
 
 (* witnesses: results that depend on earlier accesses *)
@@ -919,4 +1047,24 @@ Definition accs_good : list access :=
 Lemma coherent_nonvacuous :
   coherent V30 doc_good2 accs_good = true /\
   exists o, nth_error (run V30 doc_good2 empty_cache accs_good) 2 = Some (ROp (Val o)) /\ List.length (o_query o) = 2%nat.
+Proof. split; [vm_compute; reflexivity|]. vm_compute. eexists. split; reflexivity. Qed.
+
+(* the recorded scope depends on whether the operation was first reached by reference *)
+Definition ref_a_get : str := [35;47;112;97;116;104;115;47;126;49;97;47;103;101;116]%N.
+Definition accs_ref_first : list access := [AByRef ref_a_get; AGet p_a m_get].
+Lemma cache_strict_refuted :
+  run V30 doc_good2 empty_cache accs_ref_first <> map (fresh V30 doc_good2) accs_ref_first
+  /\ coherent V30 doc_good2 accs_ref_first = true /\ coherent_strict V30 doc_good2 accs_ref_first = false
+  /\ exists o1 o2, nth_error (run V30 doc_good2 empty_cache accs_ref_first) 1 = Some (ROp (Val o1))
+                   /\ fresh V30 doc_good2 (AGet p_a m_get) = ROp (Val o2) /\ o_scope o1 = ref_a_get /\ o_scope o2 = [].
+Proof.
+  split; [vm_compute; discriminate|]. split; [vm_compute; reflexivity|]. split; [vm_compute; reflexivity|].
+  vm_compute. do 2 eexists. repeat split.
+Qed.
+
+Definition accs_good_strict : list access :=
+  [AById s_x; AGet p_a [71;69;84]%N; AIter; AById s_x; AGet p_a m_get; AGet [47;98]%N m_get; AById [110;111]%N].
+Lemma coherent_strict_nonvacuous :
+  coherent_strict V30 doc_good2 accs_good_strict = true /\
+  exists o, nth_error (run V30 doc_good2 empty_cache accs_good_strict) 1 = Some (ROp (Val o)) /\ List.length (o_query o) = 2%nat.
 Proof. split; [vm_compute; reflexivity|]. vm_compute. eexists. split; reflexivity. Qed.
